@@ -762,10 +762,15 @@ def run(out, ctx):
                 "TrilNatural, Delta} q(u) with random parameters, inducing 2..%d, data 3..%d, 4 kernels x 3 means, Gaussian / "
                 "fixed-noise (noise= passed per minibatch) likelihoods; objective family: random minibatch subsets (B=1..4), declared "
                 "num_data in {B, N, N+3, 10, 100}, beta in {0.1, 0.5, 1, 2}, priors (4 kinds x id/log/square closures) on "
-                "lengthscale/outputscale/noise/mean constant, 0-2 added-loss terms on the model or the kernel; VariationalELBO "
+                "lengthscale/outputscale/noise/mean constant, 0-2 added-loss terms on the model, the outer kernel or the inner kernel; in ~1/3 of the cases the model "
+                "keeps a SECOND HANDLE to the inner kernel (model.base_kernel next to covar_module....base_kernel), which then carries an added-loss term (and "
+                "usually a prior): WHICH added-loss terms enter is decided by the Coq traversal model (Models/C02_priors.v added_values on the model's module "
+                "tree), Module.named_added_loss_terms and the objective's named_priors are compared exactly with named_added / named_priors of the tree; VariationalELBO "
                 "and PredictiveLogLikelihood both compared.  bound family: full batch, beta=1: N*ELBO(q) vs model, "
                 "N*ELBO <= exact log marginal likelihood, collapsed bound <= exact, ELBO(q*) = collapsed bound (q* set in the "
-                "implementation), one NGD step of size one from the random q lands on the collapsed bound.  BATCHED models (a batch of "
+                "implementation), one NGD step of size one from the random q lands on the collapsed bound in EVERY optimiser set-up of " + ", ".join(NGD_CONFIGS) + " (several parameter "
+                "groups, per-group lr, parameters without gradient before / between / after the natural parameters, a frozen parameter first, NGD + Adam hybrid loop, one NGD "
+                "shared by two models with only one ELBO back-propagated - the other model's parameters must not move).  BATCHED models (a batch of "
                 "sparse GPs in one ApproximateGP, batch shapes (2), (3), thorough also (2,2)): the batch shape on kernel+mean+inducing points+q(u) / on q(u) only / on the inputs "
                 "only / on everything, Gaussian likelihood batched or shared, one target vector per element; objective, KL pieces, bounds, q* and the NGD step (on the "
                 "summed objective) are checked for EVERY batch element against its own dense problem; each element carries the log priors of ITS OWN "
@@ -956,7 +961,9 @@ def run(out, ctx):
         "N * full-batch ELBO <= exact log marginal likelihood for every sampled q(u) (proved only along the KL term / mean-field "
         "KL >= 0; log det / trace monotonicity is out of reach, DESIGN 9.3)",
         "ELBO(q*) = collapsed (Titsias) bound (the log-det part needs the matrix determinant lemma); q* itself is proved to be the posterior",
-        "one NGD step of size one on the natural parameters reaches the collapsed bound",
+        "one NGD step of size one on the natural parameters reaches the collapsed bound (9 optimiser set-ups per bound case)",
+        "Module.named_added_loss_terms / named_priors of the objective equal the traversal model on every generated module tree (the traversal's "
+        "exactly-once theorems are proved for all trees)",
         "gradients of the objective w.r.t. raw hyper-parameters and variational parameters (autograd vs central differences of "
         "the Coq-evaluated objective)",
         "values of the prior log-densities (C17) - recomputed with mpmath"]
